@@ -34,9 +34,15 @@ def _val():
     return st.one_of(
         gen.ints().map(lambda v: ["Int", "i:%d" % v]),
         gen.finite_floats().map(lambda x: ["Float", "f:%016x" % gen.f2b(x)]),
+        # text lengths at and around powers of two (typical buffer sizes): 10^(L-8) prints as L characters with %f
+        st.builds(lambda L, neg: (-1.0 if neg else 1.0) * 10.0 ** (L - 8 - (1 if neg else 0)),
+                  st.sampled_from([15, 16, 17, 31, 32, 33, 63, 64, 65, 127, 128, 129, 255, 256, 257]), st.booleans()).map(lambda x: ["Float", "f:%016x" % gen.f2b(x)]),
+        # magnitudes 10^k: the %f text has k+8 characters, so every text length up to ~320 occurs
+        st.builds(lambda k, m, neg: (-1.0 if neg else 1.0) * m * 10.0 ** k, st.integers(0, 300), st.sampled_from([1.0, 1.5, 9.999]), st.booleans()).map(lambda x: ["Float", "f:%016x" % gen.f2b(x)]),
         st.sampled_from([16777217.0, 0.1, 1e22, 123456789.123, -0.000001, 2.0**53 + 2, 1e-7, 4503599627370497.5]).map(lambda x: ["Float", "f:%016x" % gen.f2b(x)]),
         st.one_of(gen.cbytes(16), st.binary(max_size=12).map(lambda b: bytes(c or 1 for c in b)),
-                  st.sampled_from([b'a"b', b"a\nb", b"\\", b"\\n", b"'?\"", b"\x07\x08\x0c\r\t\x0b", b"%d %s", b"", b" lead", b"q\\\"q"])).map(lambda b: ["String", "s:" + b.hex()]),
+                  st.sampled_from([b'a"b', b"a\nb", b"\\", b"\\n", b"'?\"", b"\x07\x08\x0c\r\t\x0b", b"%d %s", b"", b" lead", b"q\\\"q"]),
+                  st.sampled_from([30, 31, 62, 63, 126, 127, 128, 254, 255]).map(lambda n: b"k" * n)).map(lambda b: ["String", "s:" + b.hex()]),
     )
 
 
